@@ -281,6 +281,57 @@ def harness_c(E, ctx, aux):
     ctx.evaluations += n
 
 
+def walk_map(top):
+    """(plain block, successor index) -> the plain block reached next, passing only through synthetic blocks steered by
+    the control variables they assign and test; ('error', kind, where) when the walk breaks"""
+    from numba_scfg.core.datastructures.basic_block import SyntheticAssignment, SyntheticBranch, SyntheticBlock
+
+    flat = flatten(top)
+    regs = regions(top)
+    out = {}
+    for n, b in flat.items():
+        if isinstance(b, SyntheticBlock):
+            continue
+        for i, t in enumerate(b._jump_targets):
+            ctrl = {}
+            try:
+                pos = resolve(t, regs)
+            except Exception:
+                out[(n, i)] = ("error", "header-chain", t)
+                continue
+            res = ("error", "spin", n)
+            for _ in range(200):
+                c = flat.get(pos)
+                if c is None or not isinstance(c, SyntheticBlock):
+                    res = pos
+                    break
+                if isinstance(c, SyntheticAssignment):
+                    ctrl.update(c.variable_assignment)
+                if isinstance(c, SyntheticBranch):
+                    if c.variable not in ctrl:
+                        res = ("error", "unset", pos)
+                        break
+                    if ctrl[c.variable] not in c.branch_value_table:
+                        res = ("error", "range", pos)
+                        break
+                    nxt = c.branch_value_table[ctrl[c.variable]]
+                    if nxt not in c._jump_targets:
+                        res = ("error", "table-target", pos)
+                        break
+                elif len(c._jump_targets) == 1:
+                    nxt = c._jump_targets[0]
+                else:
+                    res = ("error", "stuck", pos)
+                    break
+                try:
+                    pos = resolve(nxt, regs)
+                except Exception:
+                    res = ("error", "header-chain", nxt)
+                    break
+            out[(n, i)] = res
+    return out
+
+
 def edit_step(desc, ops, want):
     """For C01 / C06: apply the operation sequence to the pre-state and report only what those properties state:
     want = "paths": the arcs between original blocks are preserved by control-block insertions (C01);
@@ -288,6 +339,7 @@ def edit_step(desc, ops, want):
     when its branching block is reached (C06)."""
     top, lvl = build_pre(desc)
     orig = leaf_orig(top)
+    wm0 = walk_map(top)
     fails = []
     for k, op in enumerate(ops):
         pre = snapshot(top)
@@ -302,6 +354,17 @@ def edit_step(desc, ops, want):
         for e in check_tables(top):
             fails.append({"kind": "edit-step", "signature": "edit-step:" + str(e[0]), "detail": repr(e)[:300]})
     if all(op["prim"] == "control" for op in ops):
+        # plain block to plain block, THROUGH the value tables of the pre-state's own branching blocks
+        wm1 = walk_map(top)
+        for key, before in wm0.items():
+            after = wm1.get(key, ("error", "lost", key[0]))
+            if before == after or (isinstance(before, tuple) and before[0] == "error"):
+                continue
+            ctrl = isinstance(after, tuple) and after[1] in ("unset", "range", "table-target")
+            if (want == "tables" and ctrl) or (want == "paths" and not ctrl):
+                kind = after[1] if isinstance(after, tuple) else "wrong-target"
+                fails.append({"kind": "edit-step", "signature": "edit-step:" + ("control-variable:" if ctrl else "paths:") + kind,
+                              "detail": f"{key[0]} taking successor {key[1]} reached {before} before the insertion and {after} after it"[:300]})
         for e in arc_walk_check(orig, top):
             ctrl = e[0] in ("unset", "range", "table-target")
             if (want == "tables" and ctrl) or (want == "paths" and not ctrl):
